@@ -459,7 +459,7 @@ def jobs(check, mirror, rb, known_pred):
 def zone_offset_job(check, mirror, rb, crate, U):
     import z3
     from mcheck import decide, model_value
-    from mir.sym import Adt, En, Opaque, Ref, Sc, StrV, mk_bool
+    from mir.sym import Adt, En, Opaque, Ref, Sc, StrV, mk_bool, some, none
     from mir.models import deref
     from mir.parser import MirUnsupported
     check.bounds.append("M/zone_offset: get_zone_offset for any zone name (known or unknown to the database), years 1..9999, any valid date and time; the zone rules are an uninterpreted "
@@ -520,6 +520,18 @@ def zone_offset_job(check, mirror, rb, crate, U):
                 yield st2, En("LocalResult", kind.e, {"Single": (Opaque("DateTime", t1 * 10 ** 9 + nn, date.info),),
                                                       "Ambiguous": (Opaque("DateTime", t1 * 10 ** 9 + nn, date.info), Opaque("DateTime", t2 * 10 ** 9 + nn, date.info)), "None": ()})
 
+        def m_lr_pick(ex, st, callee, a, dest_ty):
+            """LocalResult::earliest / latest / single -> Option"""
+            lr = a[0]
+            which = callee.rsplit("::", 1)[1]
+            for st2 in ex.branch(st, lr.disc == 0):
+                yield st2, some(lr.alts["Single"][0])
+            if lr.alts.get("Ambiguous"):
+                for st2 in ex.branch(st, lr.disc == 1):
+                    yield st2, (none() if which == "single" else some(lr.alts["Ambiguous"][0 if which == "earliest" else 1]))
+            for st2 in ex.branch(st, lr.disc == 2):
+                yield st2, none()
+
         def m_parse_tz(ex, st, callee, a, dest_ty):
             yield st, En("Result", z3.If(known, z3.IntVal(0), z3.IntVal(1)), {"Ok": (Opaque("Tz", zid.e),), "Err": (Opaque("Error"),)})
 
@@ -548,6 +560,7 @@ def zone_offset_job(check, mirror, rb, crate, U):
         models = [(re.compile(r"^<(Utc|Tz|chrono_tz::Tz) as TimeZone>::ymd_opt$"), m_ymd),
                   (re.compile(r"^LocalResult::<Date<.*>>::and_hms_nano_opt$"), m_hms),
                   (re.compile(r"^core::str::<impl str>::parse::<(chrono_tz::)?Tz>$|^<(chrono_tz::)?Tz as FromStr>::from_str$"), m_parse_tz),
+                  (re.compile(r"^LocalResult::<.*>::(earliest|latest|single)$"), m_lr_pick),
                   (re.compile(r"^DateTime::<.*>::with_timezone::<.*>$"), m_with_tz),
                   (re.compile(r"^<DateTime<.*> as Sub(<.*>)?>::sub$|^DateTime::<.*>::signed_duration_since::<.*>$"), m_sub),
                   (re.compile(r"^(chrono::)?(TimeDelta|Duration)::num_seconds$"), m_num_seconds),
